@@ -51,7 +51,7 @@ def run(c):
             if corr is not None:
                 counts["post-returns"] += 1
                 reqs.append(req); impl.append(str(corr[0])); model.append(str(corr[1]))
-            lc = bc.ledger_counts(o) if m["dir"] == "export" else None
+            lc = bc.ledger_counts(o) if m["dir"] == "export" else bc.ledger_counts_import(o)
             if lc is not None:
                 creqs.append(req); cimpl.append(json.dumps(lc[0], sort_keys=True)); cmodel.append(json.dumps(lc[1], sort_keys=True))
             wit, cfg = items[gmap[m["item"]]][1], items[gmap[m["item"]]][0]
